@@ -135,11 +135,11 @@ class _Builder:
             m = ma * mb if op == "mul" else ma + mb
             if m > MAG_LIMIT:
                 op, m = "addc", ma + 3
-                node = {"op": "addc", "a": a, "c": rng.randint(-3, 3)}
+                node = {"op": "addc", "a": a, "c": rng.choice([-3, -2, -1, 1, 2, 3])}
             else:
                 node = {"op": op, "a": a, "b": b}
         elif op == "addc":
-            node, m = {"op": "addc", "a": a, "c": rng.randint(-3, 3)}, self.mag[r][a] + 3
+            node, m = {"op": "addc", "a": a, "c": rng.choice([-3, -2, -1, 1, 2, 3])}, self.mag[r][a] + 3
         else:
             c = rng.choice([-2, -1, 2, 3])
             m = self.mag[r][a] * abs(c)
@@ -299,7 +299,7 @@ def generate(seed: int, index: int, profile: str = "default") -> dict:
             src, dst = pos, pos + 1
             data = None
             if prev is not None and rng.random() < 0.7:
-                data = b.add(src, {"op": "addc", "a": prev, "c": rng.randint(-2, 2)}, b.mag[src][prev] + 2)
+                data = b.add(src, {"op": "addc", "a": prev, "c": rng.choice([-2, -1, 1, 2])}, b.mag[src][prev] + 2)
             _, prev = b.comm(src, dst, data=data)
             pos += 1
             interleave()
@@ -368,15 +368,49 @@ def live_nodes(rk) -> list[int]:
     return sorted(seen)
 
 
+def node_key(rk, i, memo=None):
+    """structural identity of node i (pytato arrays are compared structurally, and the graphs
+    are deduplicated before partitioning: equal keys = one node)"""
+    if memo is None:
+        memo = {}
+    if i in memo:
+        return memo[i]
+    nd = rk["nodes"][i]
+    op = nd["op"]
+    st = bool(nd.get("stored"))
+    if op == "input":
+        k = ("input", nd["name"], st)
+    elif op == "recv":
+        k = ("recv", nd["src"], nd["tag"], nd.get("variant", 0), st)
+    elif op == "alias":
+        k = node_key(rk, nd["a"], memo)
+    elif op == "send":
+        k = ("send", node_key(rk, nd["data"], memo), nd["dst"], nd["tag"], node_key(rk, nd["pass"], memo))
+    elif op in ("add", "sub", "mul"):
+        k = (op, node_key(rk, nd["a"], memo), node_key(rk, nd["b"], memo), st)
+    else:
+        k = (op, node_key(rk, nd["a"], memo), nd["c"], st)
+    memo[i] = k
+    return k
+
+
 def comm_ops(spec):
-    """live sends and receives: lists of dicts with rank/index/peer/tag"""
+    """live sends and receives (structurally distinct nodes): dicts with rank/node/peer/tag"""
     sends, recvs = [], []
     for r, rk in enumerate(spec["ranks"]):
+        memo: dict = {}
+        seen = set()
         for i in live_nodes(rk):
             nd = rk["nodes"][i]
+            if nd["op"] not in ("send", "recv"):
+                continue
+            k = node_key(rk, i, memo)
+            if k in seen:
+                continue
+            seen.add(k)
             if nd["op"] == "send":
                 sends.append({"rank": r, "node": i, "dst": nd["dst"], "tag": nd["tag"]})
-            elif nd["op"] == "recv":
+            else:
                 recvs.append({"rank": r, "node": i, "src": nd["src"], "tag": nd["tag"],
                               "variant": nd.get("variant", 0)})
     return sends, recvs
@@ -566,7 +600,9 @@ def build(spec, rank):
         if nd.get("stored") and op not in ("alias",):
             v = v.tagged(ImplStored())
         vals.append(v)
-    return pt.make_dict_of_named_arrays({nm: vals[o] for nm, o in rk["outputs"]})
+    res = pt.make_dict_of_named_arrays({nm: vals[o] for nm, o in rk["outputs"]})
+    # separately built equal sub-expressions must be one object for pytato's cached mappers
+    return pt.transform.deduplicate(res)
 
 
 # --------------------------------------------------------------------------- faults (C10)
